@@ -465,6 +465,48 @@ def abs2 (x : List (List Rat)) : List (List Rat) := x.map (fun r => r.map absR)
 `2·E·u ≤ 1`, theorem `rounded_mean_any_order`) -/
 def replBound (u : Rat) (E : Nat) (A : Rat) : Rat := 2 * (E : Rat) * u * A
 
+/-! ## decisions a float evaluation takes exactly
+
+"Exactly when it deviates by MORE than the threshold times the spread": a pixel exactly on the boundary is
+kept.  Floating point can only be held to that where it computes the boundary exactly, i.e. where every
+number the evaluation of `|x − mean w| > t · std masked` produces is a number of the format: all partial
+sums of the window and of the neighbours in ANY order (values on a common binary grid, sum of magnitudes
+below `2^p` grid units), the two means, the deviations from the neighbours' mean, their squares and the
+partial sums of those, the variance, its square root (the variance is the square of a number of the
+format) and `t` times it.  Correctly rounded operations return such results unchanged, so every
+implementation that evaluates the definition — whatever its order of summation — decides such a pixel as
+exact arithmetic does.  `c13.filter` reports the condition per pixel (`fexact`); the check then demands
+the exact decision, also for a pixel exactly on the boundary. -/
+
+def dyadic (q : Rat) : Bool := q.den == 2 ^ Nat.log2 q.den
+
+/-- the values lie on the grid `2^-K` (`K` the largest denominator exponent) and the sum of their
+magnitudes is below `2^p` grid units: every partial sum, in any order, is a number of the format -/
+def sumsAnyOrderExact (p : Nat) (l : List Rat) : Bool :=
+  let K := (l.map (fun q => Nat.log2 q.den)).foldl max 0
+  l.all dyadic && decide (K ≤ 900) && decide ((l.map absR).sum * (2 : Rat) ^ K < (2 : Rat) ^ p)
+
+/-- the non-negative rational whose square is `q`, if there is one -/
+def ratSqrt? (q : Rat) : Option Rat :=
+  if q < 0 then none
+  else
+    let n := q.num.toNat
+    let rn := Nat.sqrt n
+    let rd := Nat.sqrt q.den
+    if rn * rn == n && rd * rd == q.den then some ((rn : Rat) / (rd : Rat)) else none
+
+def meanDecisionExact (p : Nat) (emin : Int) (t : Option Rat) (xi : Rat) (w masked : List Rat) : Bool :=
+  let m := mean w
+  let mm := mean masked
+  let dev := masked.map (fun v => v - mm)
+  let sq := dev.map (fun v => v * v)
+  sumsAnyOrderExact p w && sumsAnyOrderExact p masked && isBin p emin m && isBin p emin mm &&
+    isBin p emin (xi - m) && dev.all (isBin p emin) && sumsAnyOrderExact p sq && isBin p emin (mean sq) &&
+    (match ratSqrt? (mean sq), t with
+     | some r, some t => isBin p emin r && isBin p emin t && isBin p emin (t * r)
+     | some r, none => isBin p emin r
+     | none, _ => false)
+
 /-! ## float level (2): the mean and median filters in binary64, in NumPy's order of evaluation
 
 Lean's `Float` is IEEE binary64 with a software model the kernel can evaluate, so statements about
